@@ -317,11 +317,17 @@ def _reaction_from_dict(reaction: Dict, model: Model) -> Reaction:
                     for met, coeff in v.items()
                 )
             )
+        elif k == "lower_bound" or k == "upper_bound":
+            # both bounds are set together below
+            continue
         else:
-            if k == "lower_bound" or k == "upper_bound":
-                setattr(new_reaction, k, float(v))
-            else:
-                setattr(new_reaction, k, v)
+            setattr(new_reaction, k, v)
+    # Setting one bound at a time is checked against the other bound's default
+    # value, which rejects perfectly valid pairs such as (2000, 3000).
+    new_reaction.bounds = (
+        float(reaction.get("lower_bound", new_reaction.lower_bound)),
+        float(reaction.get("upper_bound", new_reaction.upper_bound)),
+    )
     return new_reaction
 
 
